@@ -181,6 +181,10 @@ Theorem C09_remove_lanelet_fully_source : forall ls refs s,
   run_lanelets_full src_hanging (rs_sign src_removal) (rs_light src_removal) (rs_lanelet src_removal) ls refs s
   = remove_lanelets ls refs s.
 Proof. exact src_lanelets_full. Qed.
+Theorem C09_erase_fully_source : forall s,
+  eruns_full src_hanging (rs_lanelet src_removal) (rs_sign src_removal) (rs_light src_removal) (rs_inter src_removal)
+             (rs_erase src_removal) s = erase s.
+Proof. exact src_erase_full. Qed.
 (* non-vacuity: lanelet 1 leaves with sign 7 (referenced by it alone); sign 8 (shared with lanelet 2) and light 9 stay *)
 Example C09_source_hanging_nonvacuous :
   let n := mkN [mkL 1 [7; 8] [9]; mkL 2 [8] [9]] [7; 8] [9] [] in
@@ -219,4 +223,5 @@ Print Assumptions C09_source_all_reachable_inv.
 Print Assumptions C09_source_add_nonvacuous.
 Print Assumptions C09_remove_hanging_is_source.
 Print Assumptions C09_remove_lanelet_fully_source.
+Print Assumptions C09_erase_fully_source.
 Print Assumptions C09_source_hanging_nonvacuous.
